@@ -4,7 +4,7 @@ from __future__ import annotations
 import ast
 from typing import Any
 
-from ..astutil import call_name, norm, short, where
+from ..astutil import Locals, call_name, constructs_error, error_names, norm, role_anon, short, where
 from ..core import PKG, Report
 from ..pyindex import dotted
 
@@ -17,9 +17,9 @@ LEVEL = ("hash-seed clause: every place where the ORDER of a set-typed value is 
 
 # unsorted iterations over sets whose order can only reach diagnostics text or idempotent removals (confirmed by reading)
 FROZEN = {
-    "parser.properties._process_model_errors::for root in model.roots":
+    "parser.properties._process_model_errors::for <each model_errors[0]>.roots":
         "order reaches only the text of the error detail (list of removed references) and idempotent removals",
-    "parser.properties._propogate_removal::for child in schemas.dependencies.get(root, set())":
+    "parser.properties._propogate_removal::for schemas.dependencies.get(root, set())":
         "order reaches only the text of the error detail and idempotent removals (pop/del guarded by membership)",
 }
 ENV_SOURCES = ("time.time", "time.monotonic", "datetime.now", "datetime.utcnow", "datetime.today", "date.today", "random.",
@@ -63,25 +63,25 @@ def run(rep: Report, ctx: Any) -> str:
         for n in ast.walk(f.node):
             sites: list[tuple[ast.expr, str, ast.AST]] = []
             if isinstance(n, (ast.For, ast.AsyncFor)):
-                sites.append((n.iter, f"for {norm(n.target)} in {norm(n.iter)}", n))
+                sites.append((n.iter, f"for {role_anon(n.iter, f.node)}", n))
             elif isinstance(n, (ast.ListComp, ast.GeneratorExp, ast.DictComp)):
                 for g in n.generators:
-                    sites.append((g.iter, f"comprehension over {norm(g.iter)}", n))
+                    sites.append((g.iter, f"comprehension over {role_anon(g.iter, f.node)}", n))
             elif isinstance(n, ast.Call):
                 cn = call_name(n)
                 if cn in ("list", "tuple", "next", "iter", "enumerate", "zip") and n.args:
                     inner = n.args[0]
                     if cn == "next" and isinstance(inner, ast.Call) and call_name(inner) == "iter" and inner.args:
                         inner = inner.args[0]
-                    sites.append((inner, f"{cn}({norm(inner)})", n))
+                    sites.append((inner, f"{cn}({role_anon(inner, f.node)})", n))
                 elif isinstance(n.func, ast.Attribute) and n.func.attr == "join" and n.args:
-                    sites.append((n.args[0], f"join({norm(n.args[0])})", n))
+                    sites.append((n.args[0], f"join({role_anon(n.args[0], f.node)})", n))
                 elif isinstance(n.func, ast.Attribute) and n.func.attr == "pop" and not n.args:
-                    sites.append((n.func.value, f"{norm(n.func.value)}.pop()", n))
+                    sites.append((n.func.value, f"{role_anon(n.func.value, f.node)}.pop()", n))
             elif isinstance(n, ast.JoinedStr):
                 for v in n.values:
                     if isinstance(v, ast.FormattedValue):
-                        sites.append((v.value, f"f-string of {norm(v.value)}", n))
+                        sites.append((v.value, f"f-string of {role_anon(v.value, f.node)}", n))
             for expr, desc, node in sites:
                 av = it.node_av.get(id(expr))
                 if not _is_set(av):
@@ -153,24 +153,42 @@ def run(rep: Report, ctx: Any) -> str:
     n_w = 0
     for f in ix.all_functions:
         for n in ast.walk(f.node):
-            if isinstance(n, ast.While) and isinstance(n.test, ast.Name):
+            # round loops: `while <flag>:` whose body first clears the flag (other worklist shapes are not rounds)
+            if isinstance(n, ast.While) and isinstance(n.test, ast.Name) and any(
+                    isinstance(a, ast.Assign) and norm(a.targets[0]) == n.test.id and isinstance(a.value, ast.Constant) and a.value.value is False for a in n.body):
                 n_w += 1
-                err_lists = {norm(c.func.value) for c in ast.walk(n) if isinstance(c, ast.Call) and isinstance(c.func, ast.Attribute)
-                             and c.func.attr == "append" and "error" in norm(c.func.value).lower() and "." not in norm(c.func.value)
-                             and "final" not in norm(c.func.value)}
-                for el in sorted(err_lists):
+                # roles: the work list is iterated inside the round and re-assigned from the next-round list at its end; an error
+                # list must be reset per round iff some error is appended to it in a block that also re-queues the item
+                work = {norm(lp.iter) for lp in ast.walk(n) if isinstance(lp, ast.For) and isinstance(lp.iter, ast.Name)}
+                nxt = {norm(a.value) for a in n.body if isinstance(a, ast.Assign) and norm(a.targets[0]) in work and isinstance(a.value, ast.Name)}
+                errs = error_names(f.node)
+
+                def is_err(a: ast.AST) -> bool:
+                    return constructs_error(a) or (isinstance(a, ast.Name) and a.id in errs) or \
+                        (isinstance(a, ast.Tuple) and any(isinstance(x, ast.Name) and x.id in errs for x in a.elts))
+
+                err_lists = set()
+                for blk in [getattr(b, fld) for b in ast.walk(n) for fld in ("body", "orelse") if isinstance(getattr(b, fld, None), list)]:
+                    apps = [(norm(s_.value.func.value), s_.value) for s_ in blk if isinstance(s_, ast.Expr) and isinstance(s_.value, ast.Call)
+                            and isinstance(s_.value.func, ast.Attribute) and s_.value.func.attr == "append" and s_.value.args]
+                    if any(r in nxt for r, _ in apps):
+                        err_lists |= {r for r, c in apps if r not in nxt and isinstance(c.func.value, ast.Name) and is_err(c.args[0])}
+                rep.check(bool(nxt) and bool(err_lists), "R12.2", f"{short(f)}::round-structure", "the progress loop has no next-round list / no "
+                          "per-round error list", where(f, n), lhs=[sorted(nxt), sorted(err_lists)], rhs="work list re-assigned, errors recorded with the re-queue")
+                for i_, el in enumerate(sorted(err_lists)):
                     reset = any(isinstance(s, ast.Assign) and norm(s.targets[0]) == el and isinstance(s.value, ast.List) and not s.value.elts
                                 for s in n.body)
-                    rep.check(reset, "R12.2", f"{short(f)}::round-errors {el}",
+                    rep.check(reset, "R12.2", f"{short(f)}::round-errors#{i_}",
                               f"`{el}` accumulates over rounds: whether an error is reported would depend on the order of definitions",
                               where(f, n), lhs=el, rhs="reset to [] at the head of every round")
     rep.floor("progress_loops", n_w, 3)
     # separator-anchored suffix tests on references
     n_s = 0
     for f in ix.all_functions:
+        refs = ({"ref_path"} & {p_.arg for p_ in f.params}) | set(Locals(f.node).bound_from(lambda v: v.startswith("parse_reference_path("), "assign"))
         for n in ast.walk(f.node):
             if isinstance(n, ast.Call) and isinstance(n.func, ast.Attribute) and n.func.attr == "endswith" and \
-                    (".ref" in norm(n.func.value) or "ref_path" in norm(n.func.value)) and n.args:
+                    (norm(n.func.value).endswith(".ref") or norm(n.func.value) in refs) and n.args:
                 n_s += 1
                 a = n.args[0]
                 anchored = False
@@ -178,9 +196,9 @@ def run(rep: Report, ctx: Any) -> str:
                     anchored = True
                 if isinstance(a, ast.Constant) and str(a.value).startswith("/"):
                     anchored = True
-                if isinstance(a, ast.Name) and "ref_path" in a.id:
+                if isinstance(a, ast.Name) and a.id in refs:
                     anchored = True  # a full reference path always starts with '/'
-                rep.check(anchored, "R12.2", f"{short(f)}::endswith({norm(a)[:40]})",
+                rep.check(anchored, "R12.2", f"{short(f)}::endswith({role_anon(a, f.node)[:40]})",
                           "suffix test on a reference without the `/` separator: a schema whose name is a suffix of another's is "
                           "confused with it (outcome then depends on the order of definitions)", where(f, n),
                           lhs=norm(n)[:80], rhs="argument starts with '/' or is a full reference path")
